@@ -91,7 +91,7 @@ func initBeginlessClosedRange() {
 		c,
 		"start",
 		func(vm *Thread, args []value.Value) (value.Value, value.Value) {
-			return value.Undefined, value.Undefined
+			return value.Nil, value.Undefined
 		},
 	)
 	Def(
